@@ -126,3 +126,27 @@ func TestT1WildLibFirstStreamableZero(t *testing.T) {
 		t.Fatalf("got  %v\nwant %v", got, want)
 	}
 }
+
+// Witness 2 of coq/Properties/C01_Wild.v (c01_incoherent_lib_refeed_witness): the configured LIB (1, 2) is
+// INCOHERENT with the history (its child 2 has number 0); declarations are ancestor heights; first streamable 0,
+// keptFinalBlocks 0.  Block 3 (num 1) is dropped under LIBNum 2, the LIB then moves to (2, 0), block 3 fed again
+// is delivered.
+func TestT1IncoherentLibRefeedDelivers(t *testing.T) {
+	old := bstream.GetProtocolFirstStreamableBlock
+	bstream.GetProtocolFirstStreamableBlock = 0
+	defer func() { bstream.GetProtocolFirstStreamableBlock = old }()
+
+	got, libs := t1run(t, []t1blk{{2, 0, 1, 2}, {3, 1, 2, 1}, {4, 2, 2, 0}, {3, 1, 2, 1}},
+		WithExclusiveLIB(bstream.NewBlockRef(t1id(1), 2)), WithFilters(t1all), WithKeptFinalBlocks(0),
+		EnsureAllBlocksTriggerLongestChain())
+	want := [][]string{{"new:2"}, {}, {"new:4", "irreversible:2"}, {"undo:4", "new:3", "irreversible:3"}}
+	wantLibs := []string{"1@2", "1@2", "2@0", "3@1"}
+	t.Logf("events %v", got)
+	t.Logf("LIB after each call %v", libs)
+	if !reflect.DeepEqual(got, want) {
+		t.Fatalf("got  %v\nwant %v", got, want)
+	}
+	if !reflect.DeepEqual(libs, wantLibs) {
+		t.Fatalf("libs got  %v\nwant %v", libs, wantLibs)
+	}
+}
